@@ -30,6 +30,7 @@ GEN_CFG = """SPECIFICATION Spec
 CONSTANTS
   MaxDev = %d
   NamesSet = {"utf8"}
+  SchemaSet = {"prometheus"}
   CoreOnly = FALSE
   Gaps = {}
 INVARIANTS EmitCase
